@@ -30,8 +30,8 @@ Record facts := {
   f_lead : Z;              (* if the line that results consists of blanks and at most a comment: its number of
                               leading blanks, otherwise -1 *)
   f_has_comment : bool;    (* ... and whether it has a comment *)
-  f_fix_changed : bool;    (* the character directly before or after a `+ - * **` operator next to the point
-                              changes between blank and non-blank *)
+  f_fix_changed : bool;    (* the character directly before or after a `+ - * **` operator (or before the minus sign
+                              of a negative literal) next to the point changes between blank and non-blank *)
   f_block_blank : bool;    (* a blank or a `#` comment now directly follows the end of a block comment *)
   f_cont_col0 : bool;      (* a continuation line that starts in column 0 *)
   f_after_operand : bool   (* the parenthesised operand directly follows another operand (juxtaposed call) *)
